@@ -92,3 +92,58 @@ func EnvNames(dir string) (names []string, opaque []string) {
 	sort.Strings(names)
 	return names, opaque
 }
+
+// EnvValueCandidates collects short, simple string literals of the root package: values an
+// environment variable is plausibly compared with ("off", "full", "1", a path, ...).
+func EnvValueCandidates(dir string) []string {
+	ents, err := os.ReadDir(dir)
+	if err != nil {
+		return nil
+	}
+	seen := map[string]bool{}
+	var out []string
+	for _, ent := range ents {
+		name := ent.Name()
+		if ent.IsDir() || !strings.HasSuffix(name, ".go") || strings.HasSuffix(name, "_test.go") {
+			continue
+		}
+		fset := token.NewFileSet()
+		f, err := parser.ParseFile(fset, filepath.Join(dir, name), nil, 0)
+		if err != nil {
+			continue
+		}
+		uses := false
+		ast.Inspect(f, func(n ast.Node) bool {
+			if sel, ok := n.(*ast.SelectorExpr); ok && (sel.Sel.Name == "Getenv" || sel.Sel.Name == "LookupEnv") {
+				uses = true
+			}
+			return true
+		})
+		if !uses {
+			continue
+		}
+		ast.Inspect(f, func(n ast.Node) bool {
+			bl, ok := n.(*ast.BasicLit)
+			if !ok || bl.Kind != token.STRING {
+				return true
+			}
+			s, err := strconv.Unquote(bl.Value)
+			if err != nil || len(s) == 0 || len(s) > 16 || seen[s] {
+				return true
+			}
+			for _, c := range s {
+				if !(c >= 'a' && c <= 'z' || c >= 'A' && c <= 'Z' || c >= '0' && c <= '9' || c == '_' || c == '-' || c == '.' || c == '/') {
+					return true
+				}
+			}
+			seen[s] = true
+			out = append(out, s)
+			return true
+		})
+	}
+	sort.Strings(out)
+	if len(out) > 16 {
+		out = out[:16]
+	}
+	return out
+}
